@@ -5,6 +5,7 @@ import (
 	"go/constant"
 	"go/token"
 	"go/types"
+	"sort"
 	"strings"
 
 	"golang.org/x/tools/go/ssa"
@@ -35,6 +36,7 @@ func rulesC16(c *Ctx, r *Report) {
 	rulesGrdPkg(c, r, []string{"regions"}, 10)
 	rulesLenMismatchPanics(c, r)
 	rulesSweep(c, r)
+	rulesEventsKept(c, r)
 	rulesMakeThenAppend(c, r, "regions")
 }
 
@@ -890,4 +892,85 @@ func structOfPtr(t types.Type) types.Type {
 		return p.Elem()
 	}
 	return nil
+}
+
+// rulesEventsKept (EVENTS-KEPT): every event that was built reaches the sweep: between their construction and the
+// sweep the event list is only appended to, sorted, measured and read — never cut, compacted, de-duplicated or
+// filtered (two intervals that start or end at the same position are two events).
+func rulesEventsKept(c *Ctx, r *Report) {
+	ni := c.fn("regions", "NewIndex")
+	where := "regions.NewIndex"
+	if ni == nil {
+		r.undecided("EVENTS-KEPT", where, "anchor", "", "NewIndex not found")
+		return
+	}
+	isEvents := func(t types.Type) bool {
+		sl, ok := t.Underlying().(*types.Slice)
+		if !ok {
+			return false
+		}
+		nm, ok := sl.Elem().(*types.Named)
+		return ok && nm.Obj().Name() == "event" && nm.Obj().Pkg() != nil && nm.Obj().Pkg().Path() == modPath+"/regions"
+	}
+	allowedStd := map[string]bool{"sort.Slice": true, "sort.SliceStable": true, "slices.SortFunc": true, "slices.SortStableFunc": true, "sort.Sort": true, "sort.Stable": true}
+	var bad []string
+	n := 0
+	var fs []*ssa.Function
+	for _, g := range c.stageFuncs(ni) {
+		fs = append(fs, family(g)...)
+	}
+	for _, f := range fs {
+		instrs(f, func(in ssa.Instruction) {
+			switch x := in.(type) {
+			case *ssa.Slice:
+				if isEvents(x.X.Type()) && (x.Low != nil || x.High != nil || x.Max != nil) {
+					n++
+					bad = append(bad, "part of the list taken at "+c.pos(x.Pos()))
+				}
+			case *ssa.Call:
+				uses := false
+				for _, a := range x.Call.Args {
+					v := a
+					if mi, ok := v.(*ssa.MakeInterface); ok {
+						v = mi.X
+					}
+					if isEvents(v.Type()) {
+						uses = true
+					}
+				}
+				if !uses {
+					return
+				}
+				n++
+				if b, ok := x.Call.Value.(*ssa.Builtin); ok {
+					switch b.Name() {
+					case "append", "len", "cap":
+						return
+					}
+					bad = append(bad, b.Name()+" at "+c.pos(x.Pos()))
+					return
+				}
+				g := x.Call.StaticCallee()
+				if g == nil {
+					bad = append(bad, "dynamic call at "+c.pos(x.Pos()))
+					return
+				}
+				name := qname(g)
+				if o := g.Origin(); o != nil {
+					name = qname(o)
+				}
+				if allowedStd[name] || strings.HasPrefix(name, "slices.SortFunc") || strings.HasPrefix(name, "slices.SortStableFunc") {
+					return
+				}
+				if c.inModule(g) && g.Pkg == ni.Pkg {
+					return // a stage or helper of the package: looked at through stageFuncs, or reads only
+				}
+				bad = append(bad, name+" at "+c.pos(x.Pos()))
+			}
+		})
+	}
+	sort.Strings(bad)
+	r.check(len(bad) == 0 && n >= 2, "EVENTS-KEPT", where, "the event list is only appended to and sorted", c.pos(ni.Pos()),
+		fmt.Sprintf("the event list is handed only to append, len and a sort (%d uses): every start and every end built reaches the sweep", n),
+		fmt.Sprintf("the event list is cut, compacted or handed to something that may drop elements (%v): intervals that share a start or an end are no longer all opened and closed", bad))
 }
